@@ -46,9 +46,9 @@ func C12_Jobs() []string {
 		for _, s := range []string{"top-struct", "struct-in-slice", "struct-behind-ptr", "nested-struct", "slice-in-struct", "custom-in-struct", "primitive", "named-primitives", "reentrant"} {
 			out = append(out, "arg/"+s+"/"+m)
 		}
-		out = append(out, "post/order/"+m, "post/gated/"+m, "post/error/"+m, "post/zogissue/"+m, "post/struct/"+m, "post/slice/"+m, "post/error-catch/"+m, "post/wrapped/"+m)
+		out = append(out, "post/order/"+m, "post/gated/"+m, "post/error/"+m, "post/zogissue/"+m, "post/struct/"+m, "post/slice/"+m, "post/error-catch/"+m, "post/wrapped/"+m, "post/item-index/"+m)
 	}
-	out = append(out, "preprocess/ok", "preprocess/error", "preprocess/mismatch", "preprocess/in-struct",
+	out = append(out, "absent/blank-strings", "preprocess/ok", "preprocess/error", "preprocess/mismatch", "preprocess/in-struct",
 		"after-catch/post-error/parse", "after-catch/post-error/validate", "after-catch/preprocess-error/parse", "after-catch/custom/parse", "after-catch/custom/validate", "after-catch/slice-elements/parse")
 	return out
 }
@@ -283,6 +283,37 @@ func C12_Run(job string) {
 			errs := run(z.Int().Catch(7).PostTransform(mk("1", 0)).PostTransform(mk("2", 1)).PostTransform(mk("3", 0)))
 			v.Assert(log == "12", "C12:posttransform-not-stopped-by-error")
 			_ = errs
+		case "item-index":
+			// the error of an item's PostTransform is reported at that item's path, for every index
+			// of a list of 102 items (one and two and three digits)
+			at := []int{0, 9, 10, 11, 15, 16, 99, 100, 101}[v.Choice("at", 9)]
+			in := make([]any, 102)
+			vals := make([]int, 102)
+			for i := range in {
+				in[i], vals[i] = i+1, i+1
+			}
+			el := z.Int().PostTransform(func(p any, ctx z.Ctx) error {
+				if *p.(*int) == at+1 {
+					return boom
+				}
+				return nil
+			})
+			var dl []int
+			var el2 z.ZogIssueMap
+			var ds struct{ Items []int }
+			var es z.ZogIssueMap
+			if isV {
+				dl = vals
+				el2 = z.Slice(el).Validate(&dl)
+				ds.Items = vals
+				es = z.Struct(z.Schema{"items": z.Slice(el)}).Validate(&ds)
+			} else {
+				el2 = z.Slice(el).Parse(in, &dl)
+				es = z.Struct(z.Schema{"items": z.Slice(el)}).Parse(map[string]any{"items": in}, &ds)
+			}
+			key := "[" + v.Itoa(at) + "]"
+			v.Assert(len(el2) == 2 && len(el2[key]) == 1 && el2[key][0].Err == boom && el2[key][0].Path == key, "C12:posttransform-error-not-reported")
+			v.Assert(len(es) == 2 && len(es["items"+key]) == 1 && es["items"+key][0].Path == "items"+key, "C12:posttransform-error-not-reported")
 		case "wrapped":
 			// an ordinary error whose Unwrap chain contains a ZogIssue is still an ordinary error:
 			// reported as an issue wrapping it, at the node's path
@@ -433,6 +464,28 @@ func C12_Run(job string) {
 			v.Assert(len(errs) == 2, "C12:unexpected-issues")
 		}
 		v.Cover("callback-ran")
+	case "absent":
+		// tests of an absent optional node are not called: ALL strings of white space only
+		// (<=2 bytes, 3 thorough) at a String node, behind a pointer and as the input of a list
+		s := v.String("s", 2+v.Tier())
+		n := 0
+		for n < len(s) {
+			n++
+		}
+		v.Assume(refBlank(s, n))
+		calls := 0
+		rec := func(val any, ctx z.Ctx) bool { calls++; return true }
+		// (PostTransforms are not tests: they run on every visit without issues, absent nodes included)
+		var d struct {
+			A string
+			P *string
+			L []string
+		}
+		errs := z.Struct(z.Schema{"a": z.String().TestFunc(rec), "p": z.Ptr(z.String().TestFunc(rec)), "l": z.Slice(z.String()).TestFunc(func(p any, ctx z.Ctx) bool { calls++; return true })}).
+			Parse(map[string]any{"a": s, "p": s, "l": s}, &d)
+		v.Cover("callback-ran")
+		v.Assert(errs == nil && calls == 0, "C12:callback-count")
+		v.Assert(d.A == "" && d.P == nil && d.L == nil, "C12:callback-count")
 	case "preprocess":
 		innerCalls := 0
 		inner := z.Int().TestFunc(func(val any, ctx z.Ctx) bool { innerCalls++; return true })
@@ -492,7 +545,7 @@ func C19_Jobs() []string {
 		"default-slice/top/parse", "default-slice/top/validate", "default-slice/field/parse", "default-slice/field/validate",
 		"default-slice/nested/parse", "default-slice/nested/validate",
 		"default-prim/parse", "default-prim/validate", "catch-prim/parse", "default-time/parse",
-		"oneof-list", "contains-needle", "params-after-failures", "nil-slice-validate", "two-dest-types", "test-params-kept",
+		"oneof-list", "contains-needle", "params-after-failures", "nil-slice-validate", "input/string-lists", "captured-issue", "two-dest-types", "test-params-kept",
 		"input/map", "input/typed-slice", "input/struct", "input/nested", "input/form", "input/query",
 		"validate-unchanged",
 	}
@@ -714,6 +767,34 @@ func C19_Run(job string) {
 				d.L[0] = m + 1
 				v.Assert(in.L[0] == y, "C19:destination-aliases-input")
 			}
+		case "string-lists":
+			// typed string lists with blank entries at every position (top level, struct field, nested,
+			// as a slice default): the input and the default are left as they were
+			blankAt := v.Choice("blank-at", 4) // 3 = none
+			blank := []string{"", " ", "\t"}[v.Choice("blank", 3)]
+			mk := func() []string {
+				l := []string{"a", "b", "c"}
+				if blankAt < 3 {
+					l[blankAt] = blank
+				}
+				return l
+			}
+			in, ref := mk(), mk()
+			var d []string
+			z.Slice(z.String()).Parse(in, &d)
+			v.Assert(len(in) == 3 && in[0] == ref[0] && in[1] == ref[1] && in[2] == ref[2], "C19:input-modified")
+			inS := struct{ Tags []string }{mk()}
+			var dS struct{ Tags []string }
+			z.Struct(z.Schema{"Tags": z.Slice(z.String())}).Parse(inS, &dS)
+			z.Struct(z.Schema{"tags": z.Slice(z.String())}).Parse(map[string]any{"tags": inS.Tags}, &dS)
+			v.Assert(inS.Tags[0] == ref[0] && inS.Tags[1] == ref[1] && inS.Tags[2] == ref[2], "C19:input-modified")
+			def := [][]string{mk()}
+			sd := z.Slice(z.Slice(z.String())).Default(def)
+			var dd1, dd2 [][]string
+			sd.Parse(nil, &dd1)
+			sd.Parse(nil, &dd2)
+			v.Assert(def[0][0] == ref[0] && def[0][1] == ref[1] && def[0][2] == ref[2], "C19:schema-default-modified")
+			v.Assert(len(dd1) == len(dd2) && len(dd1) == 1 && len(dd1[0]) == len(dd2[0]), "C19:second-use-differs")
 		case "form", "query":
 			// a request is input too: what net/http parsed (r.Form, r.PostForm, the URL) is the
 			// same after Parse, blanks and repeated keys included
@@ -774,6 +855,46 @@ func C19_Run(job string) {
 		v.Assert(e4 == nil, "C19:second-use-differs")
 		e5 := so.Parse("cherry", &ds)
 		v.Assert(len(e5) == 0, "C19:second-use-differs")
+	case "captured-issue":
+		// a ready-made issue returned by a PostTransform (the sentinel-error pattern, complete with
+		// type and message) is the caller's value: two executions failing at different items report it
+		// where each of them failed and leave the captured value alone
+		sentinel := &z.ZogIssue{Code: "dup", Dtype: "string", Message: "duplicate", Params: map[string]any{"k": 1}}
+		item := z.String().PostTransform(func(p any, ctx z.Ctx) error {
+			if *p.(*string) == "bad" {
+				return sentinel
+			}
+			return nil
+		})
+		sc := z.Struct(z.Schema{"tags": z.Slice(item)})
+		var d struct{ Tags []string }
+		e1 := sc.Parse(map[string]any{"tags": []any{"ok", "bad"}}, &d)
+		path1 := sentinel.Path
+		e2 := sc.Parse(map[string]any{"tags": []any{"bad", "ok"}}, &d)
+		d.Tags = []string{"ok", "ok", "bad"}
+		e3 := sc.Validate(&d)
+		v.Assert(len(e1) == 2 && len(e2) == 2 && len(e3) == 2, "C19:second-use-differs")
+		v.Assert(path1 == "" && sentinel.Path == "" && sentinel.Code == "dup" && sentinel.Message == "duplicate" && len(sentinel.Params) == 1, "C19:schema-value-modified")
+		// (where an issue that carries no path of its own is filed is C10's/C12's subject; here: the
+		// second and third use do not inherit anything from the first)
+		same := func(a, b z.ZogIssueMap) bool {
+			ka, kb := "", ""
+			for _, k := range []string{"$root", "tags", "tags[0]", "tags[1]", "tags[2]"} {
+				ka += v.Sprint(len(a[k]))
+				kb += v.Sprint(len(b[k]))
+			}
+			return ka == kb
+		}
+		var dF struct{ Tags []string }
+		fresh := &z.ZogIssue{Code: "dup", Dtype: "string", Message: "duplicate"}
+		itemF := z.String().PostTransform(func(p any, ctx z.Ctx) error {
+			if *p.(*string) == "bad" {
+				return fresh
+			}
+			return nil
+		})
+		e2f := z.Struct(z.Schema{"tags": z.Slice(itemF)}).Parse(map[string]any{"tags": []any{"bad", "ok"}}, &dF)
+		v.Assert(same(e2, e2f), "C19:second-use-differs")
 	case "nil-slice-validate":
 		// Validate changes the value only through Default, Catch and PostTransform: a nil slice
 		// stays nil (read-only transforms, optional slices, top level and below a struct)
